@@ -10,43 +10,43 @@ NOTE = ("Trusted base: CPython's ast parser; the analysers under /verif/sa (stru
 
 CLAIMS = {
  "C01": ("template + clock-effect agreement (abstract string interpretation, rational normal forms)",
-         "Decides the emitter/parser agreement the round trip needs for all 16 flag assignments: every emitted token shape is a vocabulary shape and is parsed from the same field positions; the clock effect of each REST/BAR/TIME_SIGNATURE token is identical (normal form) in tokenise and detokenise; one capacity formula; running-value discipline; guards dominate emission; note-off = onset + value. Does not decide note-set equality."),
+         "Decides the emitter/parser agreement the round trip needs for all 16 flag assignments: every emitted token shape is a vocabulary shape and is parsed from the same field positions; the clock effect of each REST/BAR/TIME_SIGNATURE token is identical (normal form) in tokenise and detokenise; one capacity formula; running-value discipline; guards dominate emission; note-off = onset + value. Does not decide note-set equality. Also: running-value tokens exist under the unfused test, event dispatch by the pairing's first message, rest before every event whose time differs from the clock, all inputs labelled and merged, BAR exactly when the bar is full and requested, an untouched bar is not closed; plus the rule groups of every routine tokenise/detokenise reach (pairing table, interleaving, merge, normaliser, sorted insertion, conversions) and VIEW on the Sequence wrappers used."),
  "C02": ("template analysis over all flag assignments + counter discipline + numeric-kind analysis",
          "Decides, for every flag assignment and symbolic configuration, that every token shape the emitter can produce is a vocabulary key shape with the same field domains, that ids are 0..size-1 with an exact inverse, that every vocabulary prefix is parsed, and that numeric token fields are integer-typed. Assumes duplicate-free lists."),
  "C03": ("def-use / state-key analysis of tokenise's state dictionary",
-         "Decides that the state dictionary carries every call-crossing variable under matching keys with defaults equal to detokenise's initial clock, derived capacity recomputed by the common formula, state written after the bar closing. Does not decide equality of outputs across partitions."),
+         "Decides that the state dictionary carries every call-crossing variable under matching keys with defaults equal to detokenise's initial clock, derived capacity recomputed by the common formula, state written after the bar closing. Does not decide equality of outputs across partitions. Also: a bar holding a note is closed at the end of a call and an untouched bar is not (abstract interpretation over bar-time/has-note/capacity states), no shared mutable default state, concatenation of bars in order, dependency closure as in C01."),
  "C04": ("typestate abstract interpretation (disjunctive worlds), inductive over histories",
          "Decides the staleness discipline for all histories by induction: every Sequence method maps each valid freshness state to a valid one, invalidates the other view after a content mutation, marks replaced views fresh, generators and external clients obey the protocol, no accessor leaks internal messages. Conversion values assumed."),
  "C05": ("key-domain analysis, grid-provenance abstract interpretation, per-type event counting",
-         "Decides channel-aware bookkeeping, ascending index removal, grid provenance of every written time, retention of non-note events, final re-sort in quantise. Not nearest-choice, displacement bound or survival."),
+         "Decides channel-aware bookkeeping, ascending index removal, grid provenance of every written time, retention of non-note events, final re-sort in quantise. Not nearest-choice, displacement bound or survival. Also decided as case tables: the bookkeeping of the main loop (kind x open? x recorded? x overlap?), the zero-length removal pass, candidate coverage per step size, the three comparisons with polarity and the empty-candidate fallback."),
  "C06": ("frame (effect) analysis + linear normal form + provenance",
-         "Decides the frame (only note-off times change), that the new duration is symbolically the chosen allowed value drawn from a shrinking copy of the allowed list, per-channel scoping, pass-through of other events, shorten-only filter. Not the closest-fit arithmetic."),
+         "Decides the frame (only note-off times change), that the new duration is symbolically the chosen allowed value drawn from a shrinking copy of the allowed list, per-channel scoping, pass-through of other events, shorten-only filter. Not the closest-fit arithmetic. Also: the whole path condition of the shorten-only filter, the pairing table (PAIR), the nearest-candidate helper."),
  "C07": ("key-domain analysis + accumulator discipline (per-type event counting)",
-         "Decides key-domain consistency of the open-note stacks, conservation of wait time (accumulator discipline), the in-force comparison of the signature filter, keep/skip structure. Not idempotence or sounding-set equality."),
+         "Decides key-domain consistency of the open-note stacks, conservation of wait time (accumulator discipline), the in-force comparison of the signature filter, keep/skip structure. Not idempotence or sounding-set equality. Also: the keep/skip table by number of open notes incl. nesting count, accumulator init and reset-after-flush, component-wise signature comparison with polarity."),
  "C08": ("key-domain analysis, must-consume dataflow, linear identities, effect analysis",
-         "Decides channel-aware open-note state, that deferred events are consumed on every path, that a cut wait conserves time, that re-struck notes copy channel/pitch/velocity, that the source is not written, piece count. Not piece durations or piano-roll equality."),
+         "Decides channel-aware open-note state, that deferred events are consumed on every path, that a cut wait conserves time, that re-struck notes copy channel/pitch/velocity, that the source is not written, piece count. Not piece durations or piano-roll equality. Also: the 9-row destination table (piece vs deferred queue, registration of open notes, round control), the typestate of the current piece, the work-list plumbing (front pop, end-of-input exit, [0:0] splice, hand-over of every non-empty piece, the unread rest)."),
  "C09": ("per-path event counting, def-use order, unit analysis, normal forms",
-         "Decides one bar per track per round on every path, Bar built from the signature that sized it, tick-unit integer bar length in normal form, look-up before clock advance, shorten-only re-quantisation, untouched inputs. Not durations or conservation."),
+         "Decides one bar per track per round on every path, Bar built from the signature that sized it, tick-unit integer bar length in normal form, look-up before clock advance, shorten-only re-quantisation, untouched inputs. Not durations or conservation. Also: round-control flag, the three outcomes of a split (remainder / placeholder / empty piece), consumption of applied signature events, default entry; and, by dependency closure, the rules of split, Bar.__init__, pad, normalise, quantise_note_lengths' filters, the pairing table, the conversions, plus VIEW on every Sequence wrapper reached."),
  "C10": ("dimension (unit) analysis + rational normal forms + statement-order rules",
-         "Decides unit-consistent capacity tests, capacity = numerator*4/denominator in the unit compared, the single leading signature rewrite after the rejection tests, pad argument in ticks, copy field coverage. Not the exact resulting duration."),
+         "Decides unit-consistent capacity tests, capacity = numerator*4/denominator in the unit compared, the single leading signature rewrite after the rejection tests, pad argument in ticks, copy field coverage. Not the exact resulting duration. Also: only duration-below-capacity tests govern the pad, polarity and content of the two signature rejections, the duration measure (sum of waits / PPQN), dependency closure."),
  "C11": ("whole-program numeric-kind abstract interpretation (int/float), inductive",
          "Decides, inductively over all operations, that every time written and every tick formatted into a token is integer-typed, under the property's integer-input hypothesis."),
  "C12": ("writer/reader table agreement + delta-buffer discipline (per-type event counting)",
-         "Decides delta-buffer discipline, writer/reader kind and field agreement, key-name table round trip against mido's table, file resolution from the library's, order-preserving unfiltered conversion. Not content equality after reload."),
+         "Decides delta-buffer discipline, writer/reader kind and field agreement, key-name table round trip against mido's table, file resolution from the library's, order-preserving unfiltered conversion. Not content equality after reload. Also: the reader decided as a case table (mido type x velocity class x has-channel), buffer start and guard polarity, and by dependency closure the loader's normaliser, sorted insertion, merge and conversion rules."),
  "C13": ("def-use (accumulate-then-round), unit analysis, routing table by per-type execution, table check",
-         "Decides accumulate-then-round without feedback, the unit and value of the rescale factor, the per-kind routing table, the velocity-0 partition, reader key-table exhaustiveness w.r.t. mido. Not the half-tick bound."),
+         "Decides accumulate-then-round without feedback, the unit and value of the rescale factor, the per-kind routing table, the velocity-0 partition, reader key-table exhaustiveness w.r.t. mido. Not the half-tick bound. Also: slot selection polarity for grouped and meta-only tracks, the reader case table, and by dependency closure the normaliser, sorted insertion, merge and conversion rules."),
  "C14": ("totality (structured reachability), exhaustive value-set evaluation, per-type frame analysis",
-         "Decides totality and tonic arithmetic of key transposition (15 keys x 49 intervals), symmetric on/off shifting by the interval, wrap-loop/flag exactness, the frame (only pitch and key written), range width, delegation. Not pitch-class arithmetic on notes."),
+         "Decides totality and tonic arithmetic of key transposition (15 keys x 49 intervals), symmetric on/off shifting by the interval, wrap-loop/flag exactness, the frame (only pitch and key written), range width, delegation. Not pitch-class arithmetic on notes. Also: the octave flag is never overwritten per message, re-normalisation under exactly the flag, dependency closure (normaliser, note-length quantisation)."),
  "C15": ("per-path event counting + must-follow + table order",
-         "Decides that all messages of all inputs are merged and re-sorted, the canonical order leads with time and orders note-off before note-on, Sequence.merge always normalises. Not the union/fusion equalities."),
+         "Decides that all messages of all inputs are merged and re-sorted, the canonical order leads with time and orders note-off before note-on, Sequence.merge always normalises. Not the union/fusion equalities. Also: the sorted insertion (bisection pieces), the normaliser's fusion table and signature filter."),
  "C16": ("ownership (taint) analysis with FRESH/DERIVED summaries to a fixpoint",
          "Decides that every copy/split/bar-split/conversion route returns only objects created by the call, that copies cover all fields, that message fields stay immutable scalars."),
  "C17": ("comparison-coverage analysis (linear forms, rank) by per-type execution",
-         "Decides that equals compares onset, duration, pitch, velocity, channel, signature values and ticks, that each ignore flag relaxes only its own attribute, symmetry of every comparison. Not behaviour under re-ordering."),
+         "Decides that equals compares onset, duration, pitch, velocity, channel, signature values and ticks, that each ignore flag relaxes only its own attribute, symmetry of every comparison. Not behaviour under re-ordering. Also: return polarity (every `return False` under a difference, fall-through True, flags off by default), attributes compared alone (a quotient of numerator and denominator does not count), the pairing table and interleaving with their initial state."),
  "C18": ("frame (effect) analysis per operation + linear normal forms + unit analysis",
-         "Decides the 'nothing else changes' half and the shape of the one change: each operation writes only its attribute on its message kind, visits every such message, pad appends requested - measured under measured < requested in ticks, cutoff rewrites to onset + replacement under > maximum. Not exact durations."),
+         "Decides the 'nothing else changes' half and the shape of the one change: each operation writes only its attribute on its message kind, visits every such message, pad appends requested - measured under measured < requested in ticks, cutoff rewrites to onset + replacement under > maximum. Not exact durations. Also: sole guards (pad exactly when measured < requested; every closed note reaches the length test), the pairing table cutoff reads, dependency closure."),
  "C19": ("clock-effect summaries in rational normal form + per-path event counting",
-         "Decides that get_info applies the same clock effects as detokenise for every token kind, appends exactly one entry per list per token on every path, records time before the token's effect, derives pitch/fifths from one parsed field."),
+         "Decides that get_info applies the same clock effects as detokenise for every token kind, appends exactly one entry per list per token on every path, records time before the token's effect, derives pitch/fifths from one parsed field. Also: the PITCH part is selected by prefix with the right polarity."),
  "C20": ("complete literal-table checks + totality + exhaustive value-set evaluation over Z12",
          "Decides all table identities exhaustively from the literals, totality and additivity of transpose_key, and the circle-of-fifths distance range / inversion over the complete residue space."),
 }
